@@ -70,6 +70,29 @@ def analyse_unit(path):
     return out
 
 
+def demangle_witnesses(R, kinds):
+    """X-name: the default message is "parse error matching " + demangle< Rule >(): demangle must yield the complete type name, also for names that
+    contain the characters its implementation searches for.  Compile-time witnesses (static_assert) in universe/w_demangle.cc, type-checked - not
+    compiled to code, not run - by the compiler of the build (g++) and by clang; a failed witness is reported by name."""
+    import subprocess, re, os
+    src = os.path.join(core.VERIF, 'universe', 'w_demangle.cc')
+    names = re.findall(r'W\( "([^"]+)"', open(src).read())
+    for cc in ('g++', 'clang++'):
+        try:
+            r = subprocess.run([cc, '-std=c++17', '-fsyntax-only', '-I', os.path.join(core.REPO, 'include'), src], capture_output=True, text=True, timeout=300)
+        except (OSError, subprocess.TimeoutExpired) as e:
+            R.broke('%s cannot check the demangle witnesses: %s' % (cc, e)); continue
+        failed = set(re.findall(r'WITNESS ([\w-]+)', r.stderr))
+        other = [l for l in r.stderr.splitlines() if 'error' in l and 'WITNESS' not in l and 'static assertion' not in l and 'static_assert' not in l]
+        if r.returncode != 0 and not failed:
+            R.broke('%s: the witness file does not type-check: %s' % (cc, (other or r.stderr.splitlines() or ['?'])[0][:200])); continue
+        for n in names:
+            kinds['name'] += 1
+            R.ob(ok=n not in failed, key=('name', cc, n))
+            if n in failed:
+                R.violation('X-name', 'demangle.hpp::demangle', 'with %s, demangle< T >() is not the complete type name for the witness "%s": the default error message "parse error matching ..." names another (truncated) rule' % (cc, n), {'compiler': cc, 'witness': n}, key=('name', cc, n))
+
+
 def run(tier):
     R = core.Result('C05', tier)
     paths = core.extract(list(units.RULES) + list(units.DISPATCH))
@@ -126,8 +149,9 @@ def run(tier):
         if not ok:
             R.violation('X-bind', 'rules.hpp::%s' % name[len(T):], 'is bound to %s catching %s, documented: %s catching %s' % ((br.get('tn') or base).replace(T, ''), got_ex, itn.replace(T, ''), ex_t))
     if nb < 8: R.broke('only %d public try_catch rules found (floor 8)' % nb)
+    demangle_witnesses(R, kinds)
     R.cov['obligations_by_kind'] = dict(kinds)
-    for k, fl in (('must', 8), ('raise-rule', 4), ('try-catch', 16), ('normal-raise', 4), ('nothrow', 10), ('equiv-raise', 20)):
+    for k, fl in (('name', 16), ('must', 8), ('raise-rule', 4), ('try-catch', 16), ('normal-raise', 4), ('nothrow', 10), ('equiv-raise', 20)):
         if kinds.get(k, 0) < fl: R.broke('only %d %s obligations (floor %d)' % (kinds.get(k, 0), k, fl))
     R.assumptions = ['numerical consistency of byte/line/column is C06; copy semantics of foreign exception types are not modelled',
                      'propagation through combinators without handlers relies on C++ semantics plus the RAII behaviour checked by REWIND/HOOKS (destructors interpreted from source)']
